@@ -5,3 +5,4 @@ import BufrProps.C10
 #print axioms Bufr.C10.C10_factor_count
 #print axioms Bufr.C10.C10_terminates
 #print axioms Bufr.C10.C10_total_correct
+#print axioms Bufr.C10.C10_fuel_irrelevant
